@@ -12,6 +12,8 @@ A_CLOCK = "the global SIMTIME atomics are mirrored by a ghost field written righ
 A_BUILD = "Builder::build (mutex, RNG install) is not extracted: its postcondition (inv, clock = start_time, empty event set) is assumed; FutureEventSet::new_with, which it calls, is proved"
 A_DERIVE = "#[derive(PartialEq, PartialOrd, ..)] on SimTime/State compare structurally: assumed"
 
+A_KANI = "Kani/CBMC: loop-free harnesses over fully symbolic inputs (complete for the stated type instances); CBMC's memory model and pointer encoding are trusted"
+
 PROPS = {
     "C01": {
         "bundles": ["core"],
@@ -20,7 +22,7 @@ PROPS = {
         "not_covered": ["memory safety of the linked list / allocator (C15)", "history-level statements follow from the per-operation abstract transitions a_add/a_fetch/a_cancel by induction; the induction itself is stated in DESIGN.md, not mechanised"],
     },
     "C02": {
-        "bundles": ["core"],
+        "bundles": ["core"], "kani": ["simtime"],
         "fns": {"core": ["CQueue::add", "CQueue::fetch_next", "cqueue_impl::FutureEventSet::new_with", "cqueue_impl::FutureEventSet::add", "Runtime::dispatch_event", "Runtime::dispatch_all", "Runtime::add_event"]},
         "assumptions": [A_DLL, A_DUR, A_BOUNDS, A_NEW, A_HANDLER, A_CLOCK, A_BUILD, A_DERIVE],
         "not_covered": ["'scheduling at or after now always succeeds' (absence of the panic) is the total-correctness reading; proved here is the partial one: add_event returns only for time >= now, and its precondition is satisfiable for time >= now (vacuity probe)",
@@ -43,5 +45,15 @@ PROPS = {
         "fns": {"core": ["RuntimeLimit::applies", "RuntimeLimit::add", "Runtime::dispatch_event", "Runtime::dispatch_all", "Runtime::finish", "Builder::max_itr", "Builder::max_time", "Builder::limit"]},
         "assumptions": [A_DLL, A_DUR, A_BOUNDS, A_NEW, A_HANDLER, A_CLOCK, A_BUILD, A_DERIVE, "Profiler::finish (Instant::now) leaves `remaining` untouched: assumed"],
         "not_covered": ["print-only `if !self.quiet {..}` blocks of finish are elided (R7)", "Runtime::run = start; dispatch_all; finish is not extracted (start contains macro_rules)"],
+    },
+    "C15": {
+        "bundles": [], "kani": ["allocarith"],
+        "assumptions": [A_KANI, "only the placement arithmetic is under contract: align_up, alloc_from_region, size_align"],
+        "not_covered": ["free-list functions find_region/add_free_region/allocate/deallocate (&'static mut nodes written through int->ptr casts: Verus rejects, Kani ran out of memory), LocalBox, node ownership, drop-exactly-once of payloads, CQueue::drop order: no history-level claim (non-overlap over all histories, recycling) is made"],
+    },
+    "C16": {
+        "bundles": [], "kani": ["body"],
+        "assumptions": [A_KANI, "'all body types' is covered by instances {u8,u32,u64,(),[u8;4],Tok(with Drop),Other,NoClone}"],
+        "not_covered": ["Message::length = 64 + body length and the derive macro's byte_len (files that cannot be included stand-alone)"],
     },
 }
